@@ -29,6 +29,7 @@ type Track struct {
 	Name  string `json:"name"`
 	Asset string `json:"asset"`
 	Ext   string `json:"ext"`
+	Media string `json:"media"`
 }
 
 type Scenario struct {
@@ -38,6 +39,7 @@ type Scenario struct {
 	RepCfg     bool     `json:"repcfg"`
 	Sequential bool     `json:"sequential"`
 	Rounds     int      `json:"rounds"`
+	Register   int      `json:"register,omitempty"`
 }
 
 type Outcome struct {
@@ -49,6 +51,9 @@ type Outcome struct {
 	Tracks     map[string][]string `json:"tracks"`
 	Files      map[string][]string `json:"files"`
 	MPDs       map[string]bool     `json:"mpds"`
+	Masters    map[string]string   `json:"masters"`
+	TrIDs      map[string][]string `json:"trids"`
+	RegOutcomes map[string]int     `json:"reg_outcomes,omitempty"`
 }
 
 type race struct {
@@ -61,10 +66,39 @@ type race struct {
 func main() { lib.Main("C19", run) }
 
 var assets = []Track{
-	{Asset: "zero_3.84s/video-500Kbps", Ext: ".cmfv"},
-	{Asset: "zero_3.84s/audio-nor-128Kbps", Ext: ".cmfa"},
-	{Asset: "zero_3.84s/video-800Kbps", Ext: ".cmfv"},
-	{Asset: "zero_3.84s/text-nor-0", Ext: ".cmft"},
+	{Asset: "zero_3.84s/video-500Kbps", Ext: ".cmfv", Media: "video"},
+	{Asset: "zero_3.84s/audio-nor-128Kbps", Ext: ".cmfa", Media: "audio"},
+	{Asset: "zero_3.84s/video-800Kbps", Ext: ".cmfv", Media: "video"},
+	{Asset: "zero_3.84s/text-nor-0", Ext: ".cmft", Media: "text"},
+}
+
+// one video track and n-1 audio/text tracks
+func oneVideoTracks(n int) []Track {
+	l := []Track{assets[0]}
+	l[0].Name = "video"
+	for i := 1; i < n; i++ {
+		a := assets[1+2*(i%2)]
+		a.Name = fmt.Sprintf("%s%d", a.Media, i)
+		l = append(l, a)
+	}
+	return l
+}
+
+// the master track names that a sequential order of the registrations can leave: the first video track
+// registered becomes and stays the master; without a video track the last one registered is the master
+func admissibleMasters(tracks []Track) map[string]bool {
+	adm := map[string]bool{}
+	for _, t := range tracks {
+		if t.Media == "video" {
+			adm[t.Name] = true
+		}
+	}
+	if len(adm) == 0 {
+		for _, t := range tracks {
+			adm[t.Name] = true
+		}
+	}
+	return adm
 }
 
 func mkTracks(n int) []Track {
@@ -99,6 +133,16 @@ func scenarios(c *lib.Ctx, rng *rand.Rand) []Scenario {
 	for _, v := range []int{1, 2, 3} {
 		scs = append(scs, Scenario{Channels: []string{"chA", "chB"}, Tracks: mkTracks(4), Auth: v&1 == 1, RepCfg: v&2 == 2, Rounds: rounds})
 	}
+	// one video and several non-video tracks: through the router, and registration (addTrData) alone
+	reg := 1500
+	if c.Thorough() {
+		reg = 12000
+	}
+	for _, n := range []int{2, 4, 8} {
+		scs = append(scs, Scenario{Channels: []string{"chV"}, Tracks: oneVideoTracks(n), Rounds: 2 * rounds})
+		scs = append(scs, Scenario{Tracks: oneVideoTracks(n), Register: reg})
+	}
+	scs = append(scs, Scenario{Tracks: mkTracks(5), Register: reg}) // two video tracks: either may be the master
 	return scs
 }
 
@@ -270,6 +314,9 @@ func run(c *lib.Ctx) error {
 		all = append(all, s)
 		ref := s
 		ref.Sequential, ref.Rounds = true, 1
+		if ref.Register > 0 {
+			ref.Register = 1
+		}
 		all = append(all, ref)
 	}
 	scPath := filepath.Join(c.Out, "c19_scenarios.json")
@@ -343,6 +390,23 @@ func run(c *lib.Ctx) error {
 		}
 		c.Count(fmt.Sprintf("%s:%dch-x-%dtr:auth=%v:repcfg=%v", kind, len(sc.Channels), len(sc.Tracks), sc.Auth, sc.RepCfg))
 		distinct[fmt.Sprintf("%d/%v", o.Scenario, o)] = true
+		if sc.Register > 0 {
+			adm := admissibleMasters(sc.Tracks)
+			var names []string
+			for _, t := range sc.Tracks {
+				names = append(names, t.Name)
+			}
+			sort.Strings(names)
+			for out, n := range o.RegOutcomes {
+				var master string
+				fmt.Sscanf(out, "master=%s", &master)
+				want := fmt.Sprintf("keys=%v trIDs=%v", names, names)
+				if !adm[master] || !strings.HasSuffix(out, want) {
+					c.Fail(id, "registration-not-sequential", fmt.Sprintf("%d of %d rounds of concurrent addTrData ended with %s; a sequential order gives master in %v, %s", n, sc.Register, out, keysOf(adm), want), sc)
+				}
+			}
+			continue
+		}
 		if o.Goroutines != len(sc.Channels) || len(o.Channels) != len(sc.Channels) {
 			c.Fail(id, "channel-objects", fmt.Sprintf("%d channel names, %d channel objects (goroutines) for %d channels", len(o.Channels), o.Goroutines, len(sc.Channels)), sc)
 			continue
@@ -366,6 +430,19 @@ func run(c *lib.Ctx) error {
 		}
 		if bad {
 			continue
+		}
+		{
+			adm := admissibleMasters(sc.Tracks)
+			for _, ch := range sc.Channels {
+				if !adm[o.Masters[ch]] || strings.Join(o.TrIDs[ch], ",") != strings.Join(want, ",") {
+					c.Fail(id, "registration-not-sequential", fmt.Sprintf("channel %s ends with master track %q and trIDs %v; a sequential order of the same uploads gives a master in %v and trIDs %v", ch, o.Masters[ch], o.TrIDs[ch], keysOf(adm), want), sc)
+					bad = true
+					break
+				}
+			}
+			if bad {
+				continue
+			}
 		}
 		if !sc.Sequential {
 			r, ok := ref[o.Scenario+1]
@@ -406,6 +483,15 @@ func run(c *lib.Ctx) error {
 	}
 	c.Res.Rule = "each evaluation is one run of a scenario (channels x tracks, auth, repcfg): all first uploads (init + first segment per track) released from a barrier in a -race child process, or its sequential reference; distinct = distinct (scenario, outcome); all are non-trivial (>= 4 concurrent requests)"
 	return nil
+}
+
+func keysOf(m map[string]bool) []string {
+	var l []string
+	for k := range m {
+		l = append(l, k)
+	}
+	sort.Strings(l)
+	return l
 }
 
 func tail(s string, n int) string {
